@@ -14,7 +14,8 @@ ASSUMPTIONS = [
 ]
 
 # properties whose statement covers a crash of the process under test
-CRASH_DEFAULT = ("C02", "C03", "C07", "C09", "C12", "C15", "C16", "C18")
+# (C10: "RPCs already in flight are allowed to complete": a crash of the serve loop while shutting down ends them)
+CRASH_DEFAULT = ("C02", "C03", "C07", "C09", "C10", "C12", "C15", "C16", "C18")
 
 
 def fams(*fs):
@@ -285,7 +286,7 @@ HANG = "fatal error: all goroutines are asleep - deadlock!"
 MC_DEFAULT = {"quick": ["MC_one"], "thorough": ["MC_one", "MC_err_cancel", "MC_down_cancel", "MC_err_close", "MC_err_shutdown", "MC_two_stepped"]}
 
 PROPS = {
-    "C01": {"level": "model_checking", "model_replay": (60, 600), "runner": run_c01, "also": ["C13_ChunksAddUp", "C13_Framing"], "mc": {"quick": ["MC_one", "MC_two_stepped"], "thorough": ["MC_one", "MC_two_stepped", "MC_err_cancel", "MC_down_cancel", "MCT_one_close"]},
+    "C01": {"level": "model_checking", "model_replay": (60, 600), "runner": run_c01, "also": ["C13_ChunksAddUp", "C13_Framing"], "mc": {"quick": ["MC_one", "MC_two_stepped"], "thorough": ["MC_one", "MC_two_stepped", "MC_err_cancel", "MC_down_cancel", "MCT_one_close", "MC_bad_cancel"]},
             "quick": lambda s: gen.fam_data(s, 64) + gen.fam_misuse(s) + gen.fam_life(s, 4, policies=("lazy", "slowsrv", "slowcli"), causes=("close", "ctxcancel"), fcs=("fc",))
                                + gen.fam_cancel(s, 4, policies=("lazy", "slowsrv", "slowcli"), fcs=("fc",))
                                + gen.fam_gates(s, 3, gates=["cli.alloc", "cli.new.sent", "car.sent.c2s.new", "car.sent.c2s.msg", "car.sent.s2c.msg", "srv.watch.fired"], faults=("none", "cancel@park", "cancel")),
@@ -300,18 +301,24 @@ PROPS = {
                                # request data waiting, unread, in the receiver when the RPC ends there: discarded, never credited
                                + [x for x in gen.fam_inflight(s, fcs=("fc",)) if "buffered" in x["name"]],
             "thorough": lambda s: gen.fam_data(s, 600, big=True) + gen.fam_flow(s, 200) + gen.fam_hostile_srv(s) + gen.fam_hostile_cli(s) + gen.fam_inflight(s)},
-    "C04": {"level": "model_checking", "model_replay": (40, 400), "mc": {"quick": ["MC_err_close", "MC_err_fail"], "thorough": ["MC_err_close", "MC_err_fail", "MCT_one_close", "MCT_err_all2", "Live_one", "Live_err_cancel"]}, "also": ["C16_NoSuccessOnWrongCount"], "hang": True,
-            "quick": lambda s: gen.fam_life(s, 5),
-            "thorough": lambda s: gen.fam_life(s, 0) + gen.fam_gates(s, 0, faults=("close",))},
+    "C04": {"level": "model_checking", "model_replay": (40, 400), "mc": {"quick": ["MC_err_close", "MC_err_fail"], "thorough": ["MC_err_close", "MC_err_fail", "MCT_one_close", "MCT_err_all2", "Live_one", "Live_err_cancel"]}, "also": ["C16_NoSuccessOnWrongCount", "C09_CliTunnelLevel"], "hang": True,
+            # + a tunnel that ends before it was ever usable (the peer's first frame is no usable settings frame, or the
+            #   stream just ends): whoever is opening it (Start, the reverse-tunnel handler) is released like any other caller
+            "quick": lambda s: gen.fam_life(s, 5) + [x for x in gen.fam_neg(s) if "neg-first" in x["name"] or "-revs2-" in x["name"] or "-revs78-" in x["name"] or "-sid1" in x["name"]],
+            "thorough": lambda s: gen.fam_life(s, 0) + gen.fam_gates(s, 0, faults=("close",)) + gen.fam_neg(s)},
     "C07": {"level": "model_checking", "model_replay": (40, 400), "mc": {"quick": ["MC_err_cancel"], "thorough": ["MC_err_cancel", "MC_down_cancel", "MCT_one_cancel", "Live_err_cancel"]}, "also": ["C16_NoSuccessOnWrongCount"], "hang": True,
             "quick": lambda s: gen.fam_cancel(s, 5) + gen.fam_inflight(s) + gen.fam_gates(s, 4, gates=["cli.alloc", "cli.watch.fired", "cli.cancel.finished", "cli.cancel.emit", "cli.frame.dispatch", "srv.frame.dispatch", "srv.finish.cancelled", "srv.close.emit", "car.sent.c2s.cancel"], faults=("cancel@park", "cancel")),
             "thorough": lambda s: gen.fam_cancel(s, 0) + gen.fam_inflight(s) + gen.fam_gates(s, 0, faults=("cancel",))},
     "C03": {"level": "model_checking", "hang": True, "mc": {"quick": ["MC_two_stepped"], "thorough": ["MC_two_stepped", "MCT_two_stepped_all"]},
             "quick": lambda s: gen.fam_indep(s, 8) + gen.fam_flow(s, 16, caps=(1, 2, 1, 4)) + gen.fam_shutdown(s, 3, policies=("eager",))
-                               + gen.fam_gates(s, 4, gates=["cli.alloc", "cli.tx.lock", "car.sent.c2s.new", "srv.reject.emit"], faults=("cancel@park", "cancel")),
-            "thorough": lambda s: sum((gen.fam_indep(s + i, 0) for i in range(8)), []) + gen.fam_shutdown(s, 0) + gen.fam_gates(s, 0, faults=("cancel",))},
+                               + gen.fam_gates(s, 4, gates=["cli.alloc", "cli.tx.lock", "car.sent.c2s.new", "srv.reject.emit"], faults=("cancel@park", "cancel"))
+                               # an RPC that ENDS with unread data behind it (deadline, cancel, early return; with and without flow control):
+                               # the bystander on the same tunnel goes on
+                               + [x for x in gen.fam_inflight(s) if "-3" in x["name"][-3:]] + gen.fam_cancel(s, 2, policies=("slowcli", "lazy"), fcs=("nofc",)),
+            "thorough": lambda s: sum((gen.fam_indep(s + i, 0) for i in range(8)), []) + gen.fam_shutdown(s, 0) + gen.fam_gates(s, 0, faults=("cancel",)) + gen.fam_inflight(s) + gen.fam_cancel(s, 0)},
     "C14": {"level": "model_checking", "snap": True, "hang": True, "runner": run_c17,
-            "also": ["C12_RegistryMatches", "C12_Callbacks"],
+            # (an application goroutine left blocked inside a call of an RPC that is over is retained by the library just as well)
+            "also": ["C12_RegistryMatches", "C12_Callbacks", "C04_CallsEnd", "C07_CallerEndsAlone", "C07_HandlerReleased"],
             "quick": lambda s: gen.fam_life(s, 8, policies=("lazy", "slowcli"), causes=("close", "srvgone", "carfail", "stop"), fcs=("fc",))
                                + gen.fam_life(s, 2, policies=("eager",), fcs=("nofc",))
                                + gen.fam_cancel(s, 3, policies=("lazy", "slowcli")) + gen.fam_indep(s, 3, policies=("random",))
